@@ -231,10 +231,10 @@ func c19Groups(d *decodedResponse) string {
 type c19User struct{ pw, email, groups string }
 
 type c19Model struct {
-	users     map[string]c19User // pw "" = no hash
-	services  map[string]string                     // name -> A / A2 / B
-	shortcuts map[string]string                     // name -> entity id
-	sessions  map[string]c19MSession                // id -> session
+	users     map[string]c19User     // pw "" = no hash
+	services  map[string]string      // name -> A / A2 / B
+	shortcuts map[string]string      // name -> entity id
+	sessions  map[string]c19MSession // id -> session
 	cookie    string
 	notch     int
 }
